@@ -57,6 +57,7 @@ def clsText (deMsg : Bytes) : Cls → Bytes
   | .user => []
   | .tooLargeEnc => ascii "Error, encoded message length too large"
   | .over4G => ascii "Cannot return body with more than 4GB of data"
+  | .encode => ascii "Error encoding: "
   | .badFlag => ascii "protocol error: received message with invalid compression flag"
   | .noEncoding => ascii "protocol error: received message with compressed-flag but no grpc-encoding was specified"
   | .tooLargeDec => ascii "Error, decoded message length too large"
@@ -285,6 +286,7 @@ def decorate (c : Cfg α) (sc : Script α) : FrameOut → RFrame
   | .err st => .trailers (trailersOfSt c sc st)   -- not produced by a server-role body
   | .pending => .pending
   | .none => .none
+  | .panic => .none   -- never produced (`Framing.compressPanics_false`)
 
 /-- the stream a handler's `Response` carries: the script's for a streaming-response shape;
 `tokio_stream::once(Ok(m))` for a unary-response shape -/
